@@ -3,6 +3,7 @@ import QV.Proofs.Circuit
 import QV.Proofs.CompilerClean
 import QV.Model.CompilerClass
 import QV.Proofs.Bennett
+import QV.Proofs.CompilerGen11
 /-!
 # C06 – Predicates compile to xor-oracles: |x>|y> -> |x>|y xor f(x)>
 
@@ -195,6 +196,67 @@ on that qubit -/
 theorem C06_fragment_alias_witness :
     inCleanFragment ["a"] [("r", .sym "a")] ["r"] = true ∧ inXorFragment ["a"] [("r", .sym "a")] ["r"] = false ∧
     validateClean [] 1 1 [0] = true ∧ validateXor [] 1 1 0 (fun x => x.getD 0 false) = false := by
+  decide +kernel
+
+/-! ## Xor-oracles on the general class (`QV/Proofs/CompilerGen1…11.lean`) -/
+
+/-- **C06 on the general class**: one requested return bit `r`, the definition list in the class of
+`C03_general_partial` (`inGeneralClean`: intermediates first – shared sub-expressions and cache hits inside and
+across definitions, re-binding, constants, re-used ancillas –, the return bit a new name defined once, last), final
+uncomputation on.  If the
+output qubit is not an argument qubit and the compiled circuit never uses it as a control (`retNeverControl`, a
+decidable check on the compiled gate list – it fails e.g. when the return bit is an alias of an intermediate that
+other gates read), the circuit is an xor-oracle `|x⟩|y⟩ ↦ |x⟩|y ⊕ f(x)⟩` for the value `f` the reference semantics
+gives `r`, for both values of `y`, with every other qubit restored. -/
+theorem C06_general_partial (inputs : List String) (defs : List (String × BExp)) (r : String)
+    (choices : List Nat) (s : CState) (q : Nat)
+    (hf : inGeneralClean inputs defs [r] = true)
+    (h : (compile inputs defs (some [r]) true).run { choices := choices } = .ok ((), s))
+    (hq : dictGet? s.qc.qmap r = some q) (hqn : inputs.length ≤ q)
+    (hnc : retNeverControl s.qc.gates.toList q = true) :
+    XorOracle s.qc.gates.toList s.qc.numQubits inputs.length q
+      (fun x => envOf (evalDefs defs (inputs.zip x)) r) := by
+  have hgs : Good s := (compile_ok h).1
+  have hqlt : q < s.qc.numQubits := hgs.qmap_lt _ (dictGet?_mem hq)
+  have hf' := hf
+  simp only [inGeneralClean, inGeneral, Bool.and_eq_true, decide_eq_true_eq, List.all_eq_true,
+    Bool.not_eq_true', Bool.or_eq_true, List.contains_eq_mem, List.any_eq_true, beq_iff_eq] at hf'
+  obtain ⟨⟨⟨⟨hnd, hfr⟩, hgen⟩, hrets⟩, hkr⟩ := hf'
+  apply xor_oracle_of_clean _ _ _ _ _ hqn hnc
+  intro x hx
+  have hr : r ∈ inputs ∨ ∃ p ∈ defs, p.1 = r := by
+    rcases hrets r (by simp) with h' | ⟨p, hp, hpr⟩
+    · exact Or.inl (by simpa using h')
+    · exact Or.inr ⟨p, hp, hpr⟩
+  obtain ⟨q', hq', hv⟩ := compile_general_sem h hnd hfr hgen x hx r hr (fun _ => by simp)
+  rw [hq] at hq'
+  cases hq'
+  have houts : [r].filterMap (dictGet? s.qc.qmap) = [q] := by simp [hq]
+  apply ext_getD
+  · rw [runClassical_length', List.length_set]
+  · intro i
+    by_cases hi : i = q
+    · subst hi
+      rw [hv]
+      have hl : i < (initState x s.qc.numQubits).length := by
+        rw [initState_length x _ (by rw [hx]; omega)]; exact hqlt
+      simp [List.getD_eq_getElem?_getD, hl]
+    · obtain ⟨c1, c2⟩ := compile_general_clean h hnd hfr hgen hkr x hx i
+      have hset : ((initState x s.qc.numQubits).set q (envOf (evalDefs defs (inputs.zip x)) r)).getD i false =
+          (initState x s.qc.numQubits).getD i false := by
+        simp [List.getD_eq_getElem?_getD, Ne.symm hi]
+      rw [hset, initState_getD]
+      by_cases hin : i < inputs.length
+      · exact c1 hin
+      · rw [c2 (by omega) (by rw [houts]; simpa using hi)]
+        have : x[i]? = none := by simp; omega
+        simp [List.getD_eq_getElem?_getD, this]
+
+/-- an instance of the static class: an intermediate whose sub-expression `And(a, b)` the return statement finds in
+the cache -/
+example : inGeneralXor ["a", "b", "c"]
+    [("m", .or [.and [.sym "a", .sym "b"], .sym "c"]),
+     ("_ret", .xor [.and [.sym "a", .sym "b"], .sym "m", .not (.sym "c")])] ["_ret"] = true := by
   decide +kernel
 
 end QV.C06
